@@ -141,11 +141,12 @@ Seed(k, td) ==
        Asg("Wr", TSeq(<< Mand("z", TIntR(0, 255)), CompOf("Ba") >>)),
        Asg("Top", TSet(<< Mand("s", Cx(Ref("Wr"), 0)), Opt("f", Cx(Ref("Fl"), 1)),
                           Mand("g", Cx(TOf("SETOF", Ref("Fl"), NoSz), 2)), Opt("h", Cx(Ref("Ba"), 3)) >>)) >>) >>]
-   [] k = 8 ->    \* extension additions whose components are references
+   [] k = 8 ->    \* the same component name and referenced type twice (OPTIONAL / mandatory); extension additions
     [mods |-> << Mod("M", td, <<>>, <<
        Asg("Bo", TBool),
-       Asg("Ex", TSeqX("SEQ", << Mand("a", TIntR(0, 255)) >>, TRUE,
-                       << Add1(Opt("b", Ref("Bo"))), Add1(Opt("c", TSeq(<< Mand("b", Ref("Bo")) >>))) >>)),
+       Asg("Ex", TSeqX("SEQ", << Mand("a", TIntR(0, 255)), Opt("b", Ref("Bo")),
+                                 Mand("c", TSeq(<< Mand("b", Ref("Bo")), Opt("g", TIntR(0, 7)) >>)) >>, TRUE,
+                       << Add1(Opt("x", Ref("Bo"))) >>)),
        Asg("Top", TSeq(<< Mand("e", Ref("Ex")), Mand("f", Ref("Bo")) >>)) >>) >>]
 
 ------------------------------------------------------------------------------
